@@ -18,11 +18,28 @@ pub fn install(kind: u8) -> Guard {
         }
         2 => {
             use opentelemetry::trace::TracerProvider as _;
-            let provider = opentelemetry_sdk::trace::TracerProvider::builder().build();
+            let provider = opentelemetry_sdk::trace::TracerProvider::builder()
+                .with_config(opentelemetry_sdk::trace::Config::default().with_id_generator(SimIds))
+                .build();
             let tracer = provider.tracer("sim");
             let sub = tracing_subscriber::registry().with(tracing_opentelemetry::layer().with_tracer(tracer));
             Guard { _g: Some(tracing::subscriber::set_default(sub)), _p: Some(provider) }
         }
         _ => Guard { _g: None, _p: None },
+    }
+}
+
+/// OpenTelemetry ids from the simulator's deterministic id source.
+#[derive(Debug)]
+struct SimIds;
+
+impl opentelemetry_sdk::trace::IdGenerator for SimIds {
+    fn new_trace_id(&self) -> opentelemetry::trace::TraceId {
+        let hi = crate::exec::next_id() as u128;
+        let lo = crate::exec::next_id() as u128;
+        opentelemetry::trace::TraceId::from_bytes(((hi << 64) | lo).to_be_bytes())
+    }
+    fn new_span_id(&self) -> opentelemetry::trace::SpanId {
+        opentelemetry::trace::SpanId::from_bytes(crate::exec::next_id().to_be_bytes())
     }
 }
